@@ -197,6 +197,9 @@ pub fn after_op(
                         if !answered {
                             let fp = if in_kept { "late_appointment_not_answered" } else { "late_appointment_missed_after_reorg_deficit" };
                             g.rep.fail("C01", fp, &format!("dispute t{} is in the last 6 blocks, penalty t{} neither submitted nor tracked", loc * 16, p * 16));
+                            if in_kept {
+                                g.rep.fail("C19", "recent_transaction_not_found_by_the_lookup", &format!("dispute t{} is in one of the six most recent blocks of the active chain (no reorg has shrunk the look-up) when its appointment arrives, yet the tower treats it as not seen: the look-up of recently confirmed transactions does not hold the most recent blocks", loc * 16));
+                            }
                         } else if sent_ok(p) && verdict(p) == SendR::Ok && !has_tracker {
                             g.rep.fail("C01", "accepted_penalty_not_tracked", &format!("node took penalty t{} but no tracker", p * 16));
                         } else if sent_ok(p) && is_rejected(verdict(p)) && (has_row || has_tracker) {
